@@ -70,6 +70,20 @@ static void gen_pair(Rng& rng, int cls, uint64_t n, std::vector<int64_t>& a, std
   a.assign(n, 0);
   b.assign(n, 0);
   int64_t A = ((int64_t)1 << abits) - 1, B = ((int64_t)1 << bbits) - 1;
+  if (cls == 6) {
+    // large results inside the budget: three coefficients of a just below 2^50 whose products with +-1 entries of b
+    // add up in one output coefficient to about 3*2^50 (>= 2^51, < 2^52); |a|_inf*|b|_1 = 3*2^50 < 2^52
+    uint64_t t = rng.below(n), k = n >= 4 ? 3 : n;
+    for (uint64_t u = 0; u < k; u++) {
+      uint64_t p = (rng.below(n / k ? n / k : 1) + u * (n / k)) % n;
+      int64_t sa = (rng.next() & 1) ? 1 : -1;
+      a[p] = sa * ((((int64_t)1) << 50) - 1 - (int64_t)rng.below(1000));
+      uint64_t q = (t + n - p) % n;
+      bool wrapped = p + q >= n;
+      b[q] = sa * (wrapped ? -1 : 1);
+    }
+    return;
+  }
   for (uint64_t i = 0; i < n; i++) {
     switch (cls) {
       case 0: a[i] = rng.sbits(abits); b[i] = rng.sbits(bbits); break;            // random
@@ -126,8 +140,8 @@ STREAM(md_prod) {
   if (thorough) { dims.push_back(16384); dims.push_back(65536); }
   for (uint64_t n : dims)
     for (int mask = 0; mask < 2; mask++)
-      for (int cls = 0; cls < 6; cls++) {
-        if (n > 4096 && cls != 4) continue;  // the schoolbook oracle is O(nnz(a)·N): only sparse a at the largest dimensions
+      for (int cls = 0; cls < 7; cls++) {
+        if (n > 4096 && cls != 4 && cls != 6) continue;  // the schoolbook oracle is O(nnz(a)·N): only sparse a at the largest dimensions
         MODULE* mod = get_module(n, 0, mask);
         // operand sizes chosen so that min(|a|_1 |b|_inf, …) stays below 2^52: |a| < 2^abits dense
         int lg = 0; while ((1ull << lg) < n) lg++;
@@ -138,7 +152,13 @@ STREAM(md_prod) {
         std::vector<int64_t> a, b;
         gen_pair(rng, cls, n, a, b, abits, bbits);
         std::string verdict = "ok";
-        auto worse = [&](const std::string& v) { if (verdict == "ok" || verdict == "na") { if (v != "ok") verdict = v; } };
+        // keeps the first failure of EACH property tag ("FAIL Cxx …"), joined by " ;; "
+        auto worse = [&](const std::string& v) {
+          if (v == "ok") return;
+          if (verdict == "ok" || verdict == "na") { verdict = v; return; }
+          if (v == "na") return;
+          if (verdict.find(v.substr(0, 8)) == std::string::npos) verdict += " ;; " + v;
+        };
         // 1. small single product: exact-size buffers, garbage scratch
         {
           Buf ra(n * 8, 8 * rng.below(4), rng, 2), rb(n * 8, 8 * rng.below(4), rng, 2), rr(n * 8, 8 * rng.below(4), rng, 2);
@@ -224,7 +244,11 @@ STREAM(md_prod) {
 static void vmp_case(Out& out, Rng& rng, uint64_t n, int mask, uint64_t nrows, uint64_t ncols, uint64_t a_size, uint64_t res_size) {
   MODULE* mod = get_module(n, 0, mask);
   std::string verdict = "ok";
-  auto worse = [&](const std::string& v) { if (verdict == "ok") verdict = v; };
+  auto worse = [&](const std::string& v) {
+    if (v == "ok") return;
+    if (verdict == "ok") { verdict = v; return; }
+    if (verdict.find(v.substr(0, 8)) == std::string::npos) verdict += " ;; " + v;
+  };
   uint64_t a_sl = n + rng.below(3);
   std::vector<int64_t> mat(nrows * ncols * n), av((a_size ? a_size : 1) * a_sl, 77);
   for (auto& x : mat) x = rng.sbits(8);
